@@ -178,7 +178,7 @@ static void set_two_handles(const Params& P, const std::vector<std::string>& nam
 }
 
 struct Runner {
-  Ctx& C; FILE* out; std::map<std::string, Stat> stats; std::map<std::string, long> known; long states = 0, transitions = 0, comparisons = 0, inadmissible = 0, inadmissible_points = 0, done = 0, boundary_pts = 0;
+  Ctx& C; FILE* out; std::map<std::string, Stat> stats; std::map<std::string, long> known; long states = 0, transitions = 0, comparisons = 0, inadmissible = 0, inadmissible_points = 0, done = 0, boundary_pts = 0, out_of_range = 0; bool cur_far = false;
   int samples_left; std::map<std::string, int> viol_budget;
   Runner(Ctx& c, FILE* o, int ns) : C(c), out(o), samples_left(ns) {}
 
@@ -187,6 +187,9 @@ struct Runner {
     Stat& st = stats[key]; st.n++; comparisons++;
     bool bad = false; double ratio = 0, ratio_alt = -1; const char* why = "";
     Q lq = (Q)lib; errq = 0;
+    // overflow: when the magnitudes that enter the value (S bounds every intermediate of the reference route) leave the range of the
+    // scalar type, inf/NaN is what any implementation produces -- the element is outside the admissible set of that type
+    if (e.mode == 0 && e.ref.s > (sizeof(S) == sizeof(double) ? Q(1e290) : (Q)1e4000L)) { out_of_range++; st.n--; comparisons--; return true; }
     if (e.special) { if (!(lib == lib) || std::isinf((LD)lib)) { bad = true; why = "non-finite at special point"; } }
     else if (e.mode == 1) { if (!(lq == e.ref.v)) { bad = true; why = "sentinel value expected"; } }
     else if (e.mode == 2) { if (lib == lib) { bad = true; why = "NaN expected"; } }
@@ -233,8 +236,12 @@ struct Runner {
     g_cb_calls_d = g_cb_calls_l = 0;
     LD l = ent->cl(A); double d = ent->cd(A); transitions += 2;
     Q el, ed;
-    check_one<LD>(e, l, U_LD, O.ldfull ? "ld62" : "ld", P, nd, el);
-    if (!O.ldfull) check_one<double>(e, d, U_D, "d", P, nd, ed);
+    bool okl = check_one<LD>(e, l, U_LD, O.ldfull ? "ld62" : "ld", P, nd, el);
+    // far-regime assignments (one parameter three decades away): an intermediate may leave the double range although the value itself is
+    // ordinary (0 * T^361).  The long double evaluation of the same code has 11 more exponent bits: when it is finite and right and the
+    // double result is not finite, the element is outside the admissible set of double, not a defect.
+    if (!O.ldfull && cur_far && okl && l == l && !std::isinf(l) && (!(d == d) || std::isinf(d))) { out_of_range++; }
+    else if (!O.ldfull) check_one<double>(e, d, U_D, "d", P, nd, ed);
     if (e.has_cb_arg && !e.special) {  // the callback must have been called, with the exact temperature
       Expect a = e; a.fn = e.fn + "@callback_arg"; a.ref = e.cb_arg; a.alt_id.clear(); a.mode = 0;
       Q dummy;
@@ -272,7 +279,8 @@ struct Runner {
 
   // returns false if inadmissible
   bool run_assignment(const Assignment& a) {
-    Params P = C.base;
+    Params P = C.base; cur_far = false;
+    if (a.structured < 0 && a.fam < 0) for (int k = 0; k < a.nd; k++) { LD b = C.base.m[C.base.names[a.d[k].p]]; if (b != 0 && (a.d[k].v == b * 1024 || a.d[k].v == b / 1024)) cur_far = true; }
     for (int k = 0; k < a.nd && a.structured < 0 && a.fam < 0; k++) P.m[P.names[a.d[k].p]] = a.d[k].v;
     if (a.structured >= 0) for (auto& dv : C.structured[a.structured]) P.m[P.names[dv.p]] = dv.v;
     if (a.fam >= 0) { const std::vector<int>& F = C.families[a.fam]; for (size_t k = 0; k < F.size(); k++) if (a.mask >> k & 1) P.m[P.names[F[k]]] = 0; }
@@ -351,6 +359,9 @@ static void build_ctx(Ctx& C, const System& sys, int tier) {
     // near-singular value for the ratio of specific heats: 1/(Gamma-1) terms become 100x larger and dominate the scale, so that
     // whatever is wrong only in them (precision of Gamma-1, a dropped Gamma factor) is no longer a small share of S
     if (names[i] == "Gamma" || names[i] == "gamma") cand.push_back(1.0L + 1.0L / 256);
+    // far regime of a single parameter: three decades up and down (semantic properties only: at K = 8 the expanded closed forms of the
+    // library and the operator form of the reference may legitimately cancel differently there)
+    if (O.prop != "C09" && !O.ldfull) { cand.push_back(b * 1024); cand.push_back(b / 1024); }
     if (sys.alphabet) cand = sys.alphabet(names[i], b, C.dflt[i]);
     for (LD v : cand) {
       if (v == b) continue;
@@ -473,7 +484,7 @@ static int run_system(const System& sys0, int tier, FILE* out, double t_end) {
       for (auto& kv : R.stats) fprintf(fo, "{\"k\":\"stat\",\"key\":\"%s\",\"n\":%ld,\"maxratio\":%.6g,\"maxratio_op\":%.6g,\"nviol\":%ld,\"nknown\":%ld}\n", kv.first.c_str(), kv.second.n, kv.second.maxratio, kv.second.maxratio_op, kv.second.nviol, kv.second.nknown);
       for (auto& kv : g_counts) fprintf(fo, "{\"k\":\"count\",\"system\":\"%s\",\"key\":\"%s\",\"n\":%ld}\n", sys.name.c_str(), kv.first.c_str(), kv.second);
       for (auto& kv : R.known) fprintf(fo, "{\"k\":\"known\",\"key\":\"%s\",\"n\":%ld}\n", kv.first.c_str(), kv.second);
-      fprintf(fo, "{\"k\":\"worker\",\"system\":\"%s\",\"states\":%ld,\"transitions\":%ld,\"comparisons\":%ld,\"inadmissible\":%ld,\"inadmissible_points\":%ld,\"boundary_point_elements\":%ld,\"done\":%ld,\"timed_out\":%s,\"stopped_at\":%zu}\n", sys.name.c_str(), R.states, R.transitions, R.comparisons, R.inadmissible, R.inadmissible_points, R.boundary_pts, R.done, timed_out ? "true" : "false", timed_out ? last : C.as.size());
+      fprintf(fo, "{\"k\":\"worker\",\"system\":\"%s\",\"states\":%ld,\"transitions\":%ld,\"comparisons\":%ld,\"inadmissible\":%ld,\"inadmissible_points\":%ld,\"boundary_point_elements\":%ld,\"out_of_range\":%ld,\"done\":%ld,\"timed_out\":%s,\"stopped_at\":%zu}\n", sys.name.c_str(), R.states, R.transitions, R.comparisons, R.inadmissible, R.inadmissible_points, R.boundary_pts, R.out_of_range, R.done, timed_out ? "true" : "false", timed_out ? last : C.as.size());
       fclose(fo); unlink(g_capfile.c_str()); _exit(0);
     }
     pids.push_back(pid);
